@@ -565,6 +565,8 @@ func (p *Pipe) Exec(s Step, dids []int) error {
 			sh = concr.Shape{Ty: "C", Nuc: 4, Nrc: 1, Dl: "ok", Win: "none", P: s.D * 100, Sfx: "ok", Sig: "ok"}
 		case "U":
 			sh = concr.Shape{Ty: "U", Rk: c.uk, Sig: "ok", Nuc: c.uk + 1, Dl: "ok", P: tok, Sfx: "ok"}
+		case "X": // re-commits to the DID's first update key
+			sh = concr.Shape{Ty: "U", Rk: c.uk, Sig: "ok", Nuc: 4, Dl: "ok", P: tok, Sfx: "ok"}
 		case "R":
 			sh = concr.Shape{Ty: "R", Rk: c.rk, Sig: "ok", Nuc: c.uk + 1, Nrc: c.rk + 1, Dl: "ok", P: tok, Sfx: "ok"}
 		case "D":
@@ -593,6 +595,9 @@ func (p *Pipe) Exec(s Step, dids []int) error {
 				p.suffix[s.D] = b.Suffix
 			case "U":
 				c.uk++
+				c.seq++
+			case "X":
+				c.uk = 4
 				c.seq++
 			case "R":
 				c.uk++
